@@ -703,7 +703,9 @@ func installFunctions(in *Interp, p *Pkg) {
 		}
 		// The order and number of predicate calls is the sorting algorithm's
 		// business, so the model only follows pure builtin predicates.
-		pure := func(f *V) bool { return f == nil || (f.Fn.Builtin != nil && f.Fn.Kind == FnFunction && pureBuiltins[f.Fn.Name]) }
+		pure := func(f *V) bool {
+			return f == nil || (f.Fn.Builtin != nil && f.Fn.Kind == FnFunction && pureBuiltins[f.Fn.Name])
+		}
 		if !pure(less) || !pure(key) {
 			return nil, in.unsureSort(less, key, a[1])
 		}
